@@ -1433,6 +1433,8 @@ class Fxp():
     # bit level operators
 
     def __rshift__(self, n):
+        if isinstance(n, np.integer) or (isinstance(n, np.ndarray) and n.ndim == 0 and n.dtype.kind in 'iu'):
+            n = int(n)      # (a numpy integer count: the sizes derived from it have to be python integers)
         if self.config.shifting == 'expand':
             min_pow2 = utils.min_pow2(self.val)     # minimum power of 2 in raw val
             if min_pow2 is not None and n > min_pow2:
@@ -1450,6 +1452,8 @@ class Fxp():
     __irshift__ = __rshift__
 
     def __lshift__(self, n):
+        if isinstance(n, np.integer) or (isinstance(n, np.ndarray) and n.ndim == 0 and n.dtype.kind in 'iu'):
+            n = int(n)      # (a numpy integer count: the sizes derived from it have to be python integers)
         if self.config.shifting == 'expand':
             n_word = max(self.n_word, int(np.max(np.ceil(np.log2(np.abs(self.val)+0.5)))) + self.signed + n)
         else:
